@@ -1,5 +1,6 @@
 import Mhd.Model.ConnMem
 import Mhd.Model.NoSpace
+import Mhd.Model.ConnRead
 import Driver.Common
 open Mhd.ConnMem Mhd.Pool Driver
 
@@ -26,7 +27,47 @@ def nat1 (c : CM) (s : String) (f : Nat → Op) : CM × List String :=
   | some k => if k < 2 ^ 64 then doOp c (f k) else (c, ["bad-op"])
   | none => (c, ["bad-op"])
 
-def stepLine (c : CM) (ws : List String) : CM × List String :=
+
+/-! ### composed engine (`Mhd.ConnRead`): `crinit <pool_size> <increment> <level>`, `crfeed <hex>` -/
+open Mhd.ConnRead in
+def showCR (x : CR) : String :=
+  let c := x.cm
+  let pos := s!"rb={optS c.rb} rbs={c.rbSize} rbo={c.rbOff} pos={c.p.pos} end={c.p.end_}"
+  let win := hexOfBytes (Mhd.Pool.readAt c.p.mem (c.rb.getD 0) c.rbOff)
+  -- `sync`: the buffer carried by the parser state is the arena prefix up to the end of the received data
+  let sync (buf : Mhd.Req.Bytes) : String :=
+    if (c.p.mem.take buf.size) == buf.toList && buf.size == c.rb.getD 0 + c.rbOff then "1" else "0"
+  match x.phase with
+  | .reqLine s => s!"ph=line {pos} ne=0 sync={sync s.buf} win={win}"
+  | .headers s _ => s!"ph=hdrs {pos} ne={s.elems.length} sync={sync s.buf} win={win}"
+  | .headersDone h => s!"ph=done {pos} ne={h.elems.length} sync={sync h.buf} win={win}"
+  | .error (.reply code) => s!"ph=err code={code}"
+  | .error .noSpace => "ph=err code=ns"
+  | .error .closed => "ph=err code=0"
+  | .fault f => s!"ph=fault {repr f}"
+  | .refused n => s!"ph=refused {n}"
+
+structure DS where
+  cm : CM
+  cr : Mhd.ConnRead.CR
+
+def stepCR (x : Mhd.ConnRead.CR) (ws : List String) : Option (Mhd.ConnRead.CR × List String) :=
+  match ws with
+  | ["crinit", ps, inc, lvl] =>
+    match ps.toNat?, inc.toNat?, lvl.toInt? with
+    | some p, some i, some l =>
+      if 64 ≤ p ∧ p < 2 ^ 40 ∧ i < 2 ^ 40 ∧ -8 ≤ l ∧ l ≤ 8 then
+        let x0 := Mhd.ConnRead.init (createSize p) p i l
+        some (x0, [s!"ok {showCR x0}"])
+      else some (x, ["bad-op"])
+    | _, _, _ => some (x, ["bad-op"])
+  | ["crfeed", hex] =>
+    match bytesOfHex hex with
+    | some bs => let x1 := Mhd.ConnRead.feed x bs; some (x1, [showCR x1])
+    | none => some (x, ["bad-op"])
+  | _ => none
+
+def stepLineCM (c : CM) (ws : List String) : CM × List String :=
   match ws with
   | ["init", ps, inc] => match ps.toNat?, inc.toNat? with
       | some p, some i =>
@@ -61,4 +102,9 @@ def stepLine (c : CM) (ws : List String) : CM × List String :=
     | _, _, _, _, _, _, _ => (c, ["bad-op"])
   | _ => (c, ["bad-op"])
 
-def main : IO Unit := runEngine (init 64 64 16) stepLine
+def stepLine (d : DS) (ws : List String) : DS × List String :=
+  match stepCR d.cr ws with
+  | some (x, out) => ({ d with cr := x }, out)
+  | none => let (c, out) := stepLineCM d.cm ws; ({ d with cm := c }, out)
+
+def main : IO Unit := runEngine ({ cm := init 64 64 16, cr := Mhd.ConnRead.init 64 64 16 0 } : DS) stepLine
